@@ -102,6 +102,17 @@ def make_session(rng, g, desc, tsdump=None):
             for sink in ("none", "str", "path"):
                 ts_ops.append({"op": "raw.tsxml", "ts": t, "sink": sink})
             ts_ops.append({"op": "ts.to_xml", "ts": t})
+    # a type that is extended AFTER the first rounds of serialisation (see the end of the session).  Its name is unique per
+    # scenario: `Type.__eq__` is structural across type systems, so equally named types of other scenarios run by the same
+    # interpreter could otherwise answer for it in a per-type cache
+    late = None
+    if rng.random() < 0.6:
+        late = "x.Late%d" % rng.randrange(10 ** 9)
+        ops.append({"op": "ts.create_type", "ts": g.ts, "name": late, "super": "uima.cas.TOP"})
+        ops.append({"op": "ts.create_feature", "ts": g.ts, "domain": late, "name": "v", "range": "uima.cas.Integer"})
+        g.sb.fs_new(g.ts, late, {"v": 1}); ops.append(g.sb.ops[-1])
+        ops.append({"op": "cas.add", "h": h, "fs": g.sb.n_fs - 1})
+    late_ts = g.ts
     r = rng.random()
     views = list(g.views.values())
     if r < 0.25:
@@ -110,6 +121,7 @@ def make_session(rng, g, desc, tsdump=None):
     elif r < 0.5:
         ops.append({"op": "cas.reload", "h": h, "fmt": "json"})
         h, origin, views = nh, "json", [nh]
+        late_ts = g.sb.n_ts + (2 if desc is not None else 0)   # the CAS loaded from JSON brings its own type system
     obs = [{"op": "cas.select_all", "h": v} for v in views]
     for t in rng.sample(g.order, min(2, len(g.order))):
         obs.append({"op": "cas.select", "h": h, "type": t})
@@ -129,6 +141,16 @@ def make_session(rng, g, desc, tsdump=None):
     ops += s2
     marks["C"] = (len(ops), len(ops) + len(obs) + len(slots) + 1)
     ops += obs + slots + [{"op": "cas.dump", "h": h, "fine": True}]
+    if late is not None and origin == "api":   # (labels of structures created after a reload are not comparable between model and code)
+        # ... extend the type system after everything above was serialised (several times), use the new feature, serialise again
+        ops.append({"op": "ts.create_feature", "ts": late_ts, "domain": late, "name": "late", "range": "uima.cas.String"})
+        g.sb.fs_new(late_ts, late, {"v": 2, "late": "x"}); ops.append(g.sb.ops[-1])
+        ops.append({"op": "cas.add", "h": h, "fs": g.sb.n_fs - 1})
+        l0 = len(ops)
+        ops += [{"op": "json.save", "h": h, "mode": "full"}, {"op": "json.save", "h": h, "mode": "minimal"}, {"op": "ts.to_xml", "ts": late_ts},
+                {"op": "raw.json", "h": h, "mode": "full", "pretty": False, "ascii": False, "sink": "none"},
+                {"op": "raw.tsxml", "h": h, "sink": "none"}, {"op": "raw.xmi", "h": h, "pretty": False, "sink": "none"}]
+        marks["L"] = (l0, len(ops), late)
     return ops, marks, origin, len(slots), len(obs)
 
 
@@ -177,6 +199,16 @@ def run(ctx, out, budget):
     with ThreadPoolExecutor(max_workers=min(len(seeds), 12)) as ex:
         per_seed = list(ex.map(lambda sd: run_in_seed(sd, sess), seeds))
     model = sessions.run_model_sessions(ctx.driver, [model_ops(o) for o in sess])
+    # the same scenarios in the opposite order in one more fresh interpreter: what a scenario writes must not depend on which
+    # other CASes / type systems the process serialised before (module- or class-level state)
+    rev = list(reversed(run_in_seed(seeds[0], list(reversed(sess)))))
+    for si, (ops, marks, origin, n_slots, n_obs) in enumerate(scen):
+        for i, (o, r, r0) in enumerate(zip(ops, rev[si], per_seed[0][si])):
+            if o["op"].startswith("raw.") and r != r0:
+                out.oracle_failures.append({"scenario": {"k": "session", "ops": ops, "origin": origin, "hashseed": seeds[0]}, "op_index": i,
+                                            "what": "bytes depend on which other scenarios the interpreter ran before (scenario order reversed)",
+                                            "expected": r0, "actual": r})
+                break
     for si, (ops, marks, origin, n_slots, n_obs) in enumerate(scen):
         sc = {"k": "session", "ops": ops, "origin": origin}
         ref = per_seed[0][si]
@@ -191,7 +223,10 @@ def run(ctx, out, budget):
                 continue
             # one SHA per flavour within the process
             shas = {}
+            lstart = marks["L"][0] if "L" in marks else len(ops)
             for i, (o, r) in enumerate(zip(ops, io_)):
+                if i >= lstart:
+                    break
                 if o["op"].startswith("raw."):
                     kk = ser_key(o)
                     if kk in shas and shas[kk][1] != r["ok"]:
@@ -202,6 +237,8 @@ def run(ctx, out, budget):
             # the structured documents repeat as well
             docs = {}
             for i, (o, r) in enumerate(zip(ops, io_)):
+                if i >= lstart:
+                    break
                 if o["op"] in ("xmi.save", "json.save"):
                     kk = ser_key(o)
                     c = common.canon(r)
@@ -229,6 +266,17 @@ def run(ctx, out, budget):
                 for x, y in zip(A, B[:-1]):
                     if isinstance(x.get("ok"), dict) and "%xid" in x["ok"] and x["ok"]["%xid"] is not None and x["ok"]["%xid"] != y["ok"]["%xid"]:
                         out.oracle_failures.append({"scenario": scs, "what": "serialising changed an existing id", "expected": x, "actual": y})
+                        break
+            # serialisations made before an extension of the type system must not decide what later ones write
+            if "L" in marks:
+                l0, l1, late = marks["L"]
+                for i in (l0, l0 + 1, l0 + 2):
+                    r = io_[i].get("ok")
+                    decls = (r.get("types") if isinstance(r, dict) else r) or []
+                    ent = next((t for t in decls if t.get("name") == late), None)
+                    if ent is None or sorted(f["name"] for f in ent["feats"]) != ["late", "v"]:
+                        out.oracle_failures.append({"scenario": scs, "op_index": i, "what": "a serialisation made after the type system was extended does not declare the extension (earlier serialisations disturbed later ones)",
+                                                    "expected": [late, ["late", "v"]], "actual": ent})
                         break
             # across hash seeds
             if sdi > 0:
